@@ -231,6 +231,19 @@ def run_C05(tier, rnd, st, res):
                         if mode in (8, 13):
                             kw['mode'] = MODE_NAME[mode]
                         cases.append(Case(content_for(rnd, mode, n), kw, 'exact-fit'))
+    # complete boost grid (deterministic): every version x every requested level (spelled as text and as the integer constant) x
+    # every level above it: numeric content that fits the higher level exactly / by one digit not, boost on, version requested or
+    # (Micro) chosen — each of the (request, result) pairs of every version occurs in every run
+    for v in ALL_VERSIONS:
+        lv = [e for e in levels_of(v) if e is not None]
+        for req in lv:
+            for hi in [e for e in lv if [1, 0, 3, 2].index(e) >= [1, 0, 3, 2].index(req)]:      # L < M < Q < H
+                nm = max_chars(v, hi, 1)
+                if nm < 1:
+                    continue
+                for n in (nm, nm + 1):
+                    for err in (LEVEL_NAME[req], LEVEL_NAME[req].lower()):
+                        cases.append(Case(content_for(rnd, 1, n), dict(error=err, version=vname(v), mask=0), 'boost-grid'))
     # ECI header (12 bits) counted in boosting: byte content in a non-default encoding at exact-fit lengths
     for v in (range(1, 6) if tier == 'quick' else range(1, 41)):
         for e in levels_of(v):
